@@ -485,6 +485,16 @@ def show_pick_impl(r):
     return "other " + str(r)
 
 
+import time as _time
+
+
+def _tick(run, name):
+    now = _time.time()
+    ph = run.coverage.setdefault("phase_s", {})
+    ph[name] = round(now - run.coverage.get("_t_last", run.t0), 1)
+    run.coverage["_t_last"] = now
+
+
 def check(run):
     run.coverage["rule"] = (
         "every registered object/observable/bundle class of both versions (stixgen, frozen spec tables) x variants the versions or "
@@ -534,10 +544,12 @@ def check(run):
             run.notes.append("Props/C14Schema.v not checked: %s" % e)
     run.coverage["schema_agreement_checked"] = schema_ok
 
+    _tick(run, 'build')
     md, reg = probe_modes(run)
     run.coverage["variant"] = dict(md)
     run.coverage["registry_sizes"] = {k: len(v) for k, v in reg.items()}
 
+    _tick(run, 'modes')
     # ---- what the generated table says -------------------------------------------------
     table_entries, refuted = [], []
     if model_ok:
@@ -559,6 +571,7 @@ def check(run):
     if missing:
         run.broken.append(Broken("correspondence", "entry points missing from the generated table", {"missing": missing}))
 
+    _tick(run, 'table_eval')
     # ---- probes ------------------------------------------------------------------------
     probes = gen_probes(run, reg)
     probes.insert(0, {"cid": "2.1/Identity", "ver": "2.1", "kind": "object", "variant": "witness", "data": WITNESS})
@@ -570,12 +583,25 @@ def check(run):
         for e in entries_for(p):
             grid = cfgs.setdefault(e, cfg_grid(e, run.tier))
             for cfg in grid:
+                if run.tier != "thorough" and e == "environment.Environment.parse" and pi % 3 and p["variant"] != "witness":
+                    continue        # a pure forwarder to parse(): a third of the probes in the quick tier
+                if run.tier != "thorough" and e.startswith("filesystem.FileSystemStore.") and pi % 2 \
+                        and p["variant"] not in ("witness", "zero-uuid", "v1-uuid"):
+                    continue        # the store methods forward to the source / sink driven above: half of the plain probes
+                if run.tier != "thorough" and "allow_custom" in cfg and e not in PARSE_ENTRIES + OBS_ENTRIES:
+                    # quick tier: an explicit allow_custom through the stores only where it changes the answer
+                    # (custom property, unregistered type) and on one plain object per class
+                    if p["variant"] not in ("witness", "custom-property", "unknown-type") and not (
+                            p["variant"] == "base" and cfg["allow_custom"] is False):
+                        continue
                 plan.append((pi, e, cfg))
                 if e in MEM_ENTRIES and p["variant"] in ("witness", "zero-uuid", "v1-uuid") and "allow_custom" not in cfg:
                     for w in (("bundle", "list") if not e.endswith("load_from_file") else ("bundle",)):
                         c2 = dict(cfg)
                         c2["wrap"] = w
                         plan.append((pi, e, c2))
+                if run.tier != "thorough" and "version" not in cfg and e in FS_SRC_ENTRIES:
+                    continue        # quick tier: the file layouts below only with a version named
                 if e in FS_SRC_ENTRIES and p["variant"] in ("witness", "base", "zero-uuid", "v1-uuid") and "allow_custom" not in cfg:
                     c2 = dict(cfg)
                     c2["wrap"] = "bundlefile"
@@ -628,12 +654,22 @@ def check(run):
         qi = len(probes) - 1
         for e in TAXII_ENTRIES:
             for cfg in cfgs.setdefault(e, cfg_grid(e, run.tier)):
+                special = p["variant"] in ("witness", "custom-property", "unknown-type", "zero-uuid", "no-spec-version", "spec-version-added")
+                if run.tier != "thorough" and "allow_custom" in cfg and not special:
+                    continue
                 plan.append((qi, e, cfg))
-                if e in TAXII_SINK_ENTRIES and cfg.get("allow_custom") is not False:
+                if e in TAXII_SINK_ENTRIES and cfg.get("allow_custom") is not False and (
+                        run.tier == "thorough" or "allow_custom" not in cfg or special):
                     for wr in ("str", "bundle", "list"):
                         plan.append((qi, e, dict(cfg, wrap=wr)))
 
     # model: the triple(s) each (entry, cfg) hands to the parser
+    fam = {}
+    for _pi, _e, _cfg in plan:
+        k = _e.split(".")[0] + ("/" + _cfg["wrap"] if _cfg.get("wrap") else "")
+        fam[k] = fam.get(k, 0) + 1
+    run.coverage["plan_by_family"] = fam
+    _tick(run, 'plan')
     eff = {}
     if model_ok:
         keys = sorted({(e, json.dumps({k: v for k, v in cfg.items() if k != "wrap"}, sort_keys=True)) for _, e, cfg in plan})
@@ -664,6 +700,7 @@ def check(run):
     wb_idx = [k for k, pi in enumerate(order) if probes[pi].get("wb")]
     tx_idx = [k for k, pi in enumerate(order) if probes[pi].get("taxii")]
     plain_idx = [k for k, pi in enumerate(order) if not probes[pi].get("wb") and not probes[pi].get("taxii")]
+    _tick(run, 'effective_eval')
     impl = [None] * len(cases)
     for k, r in zip(plain_idx, common.run_impl("c14_impl", [cases[k] for k in plain_idx])):
         impl[k] = r
@@ -676,6 +713,12 @@ def check(run):
     run.coverage["workbench_cases"] = len(wb_idx)
     run.coverage["taxii_cases"] = len(tx_idx)
 
+    _tick(run, 'impl_entry_points')
+    tsum = {}
+    for r in impl:
+        for k, x in (r.get("t") or {}).items():
+            tsum[k] = round(tsum.get(k, 0.0) + x, 1)
+    run.coverage["impl_cpu_s_by_family"] = tsum
     dis, n_cmp, n_model_unknown = [], 0, 0
     for pi, c, r in zip(order, cases, impl):
         p = probes[pi]
@@ -772,9 +815,11 @@ def check(run):
         run.coverage["dispatch_first_disagreements"] = dis[:8]
         run.broken.append(Broken("correspondence", "generated call-site table vs entry points", {"first": dis[:5]}))
 
+    _tick(run, 'judge')
     # ---- history independence: the answer to (content, version) does not depend on what was asked before ------------
     order_oracle(run, probes[:n_plain])
 
+    _tick(run, 'order')
     # ---- library output handed back without a version -------------------------------------
     own_cases = []
     for p in probes:
@@ -805,6 +850,7 @@ def check(run):
                     finding=FINDING_EMPTY_BUNDLE if (empty21 and not md["bundle_default"] and got[:2] == ["exc", "KeyError"]) else None))
     run.coverage["own_output_objects_built"] = built
 
+    _tick(run, 'own_output')
     # ---- detect_spec_version / class choice / id check: model vs code -------------------------
     if model_ok:
         try:
@@ -812,12 +858,14 @@ def check(run):
         except RuntimeError as e:
             run.broken.append(Broken("correspondence", "model evaluation failed", {"error": str(e)[-1500:]}))
 
+    _tick(run, 'models_corr')
     if model_ok and schema_ok:
         try:
             schema_stream(run, md)
         except RuntimeError as e:
             run.notes.append("schema/C14 detect stream not run: %s" % str(e)[-300:])
 
+    _tick(run, 'schema_stream')
     # a failed obligation over the generated table: say which entry points / call sites
     if refuted and any(b.kind == "obligation" for b in run.broken):
         for b in run.broken:
@@ -833,6 +881,7 @@ def check(run):
     run.coverage["classified_violation_examples"] = ex
     run.coverage["classified_violation_counts"] = {k: sum(1 for v in run.violations if v.finding == k) for k in ex}
 
+    run.coverage.pop("_t_last", None)
     run.coverage["trusted_base"] += [
         "translators/tr_callsites.py (fail-closed ast translator of the call sites; validated each run by the entry-point sweep)",
         "coq/Model/VersionDetect.v, coq/Model/IdCheck.v: hand models of detect_spec_version, the class choice and _check_uuid/"
